@@ -1,7 +1,7 @@
 /* UNIT
 {
  "id": "EXPR.builtin",
- "file": "expr.c", "function": "builtinfunc", "also_functions": ["designator", "mkunaryexpr", "mkexpr", "mkconstexpr", "delexpr", "typecompatible"],
+ "file": "expr.c", "function": "builtinfunc", "also_functions": ["designator", "mkunaryexpr", "mkexpr", "mkconstexpr", "delexpr", "typecompatible", "builtintype"],
  "properties": {"C05": "contract", "C10": "contract", "C08": "contract", "C19": "safety"},
  "mode": "harness",
  "replace_calls": {"assignexpr": "stub_assignexpr", "condexpr": "stub_condexpr", "exprassign": "rec_exprassign", "typemember": "stub_typemember"}, "replay": false,
